@@ -268,8 +268,19 @@ func (p *F) LinOf(v ssa.Value) Lin {
 			return p.LinOf(x.X)
 		}
 	case *ssa.Call:
-		if b, ok := x.Call.Value.(*ssa.Builtin); ok && (b.Name() == "len" || b.Name() == "cap") && len(x.Call.Args) == 1 {
+		if b, ok := x.Call.Value.(*ssa.Builtin); ok && b.Name() == "len" && len(x.Call.Args) == 1 {
 			return p.LenOf(x.Call.Args[0])
+		}
+		// cap of an array is its length; the capacity of a slice is not its length (what lies between the two is not part
+		// of the value): it stays a number of its own
+		if b, ok := x.Call.Value.(*ssa.Builtin); ok && b.Name() == "cap" && len(x.Call.Args) == 1 {
+			t := x.Call.Args[0].Type().Underlying()
+			if pt, isP := t.(*types.Pointer); isP {
+				t = pt.Elem().Underlying()
+			}
+			if _, isArr := t.(*types.Array); isArr {
+				return p.LenOf(x.Call.Args[0])
+			}
 		}
 	}
 	if fw, key := p.canonLoad(v); fw != nil {
